@@ -45,7 +45,7 @@ def shards(tier, seed):
     step = (total + n - 1) // n
     for k in range(n):
         out.append({"kind": "codepoints", "lo": k * step, "hi": min(total, (k + 1) * step),
-                    "embed_every": 96 if tier == "quick" else 4})
+                    "embed_every": 96 if tier == "quick" else 8})
     if tier == "quick":
         plan = [("core", 3, 12)]
     else:
